@@ -38,7 +38,7 @@ theorem sim_observe (s : St) : Sim s .observe := by
   simp only [step, Spec.step, Option.isNone_none, and_true]
   unfold observe; split <;> rfl
 
-theorem view_defname (s : St) (k : Nat) (sc : Name) : view (step s (.defname k sc)).1 = view s := by
+theorem view_defname (s : St) (k : Nat) (sc dt : Name) : view (step s (.defname k sc dt)).1 = view s := by
   simp only [step]
   split
   · rename_i s' hd
@@ -711,7 +711,7 @@ theorem sim_step (s : St) (op : Op) (hi : Inv s) (hp : PB s) :
   | active i => exact (sim_active s hi hp i).1
   | group ns => exact (sim_group s hi hp ns).1
   | ungroup => exact (sim_ungroup s hi hp).1
-  | defname k sc => exact (view_defname s k sc).symm
+  | defname k sc dt => exact (view_defname s k sc dt).symm
   | deldef k sc => exact (view_deldef s k sc).symm
   | setcell n v => exact (sim_setcell s hi hp n v).1
   | save => exact (sim_save s).1
@@ -719,7 +719,7 @@ theorem sim_step (s : St) (op : Op) (hi : Inv s) (hp : PB s) :
 
 /-- acceptance agrees too (SetDefinedName is not described by the list model) -/
 theorem sim_accept (s : St) (op : Op) (hi : Inv s) (hp : PB s)
-    (hop : ∀ k sc, op ≠ .defname k sc ∧ op ≠ .deldef k sc) :
+    (hop : ∀ k sc dt, op ≠ .defname k sc dt ∧ op ≠ .deldef k sc) :
     (Spec.step (view s) op).2 = (step s op).2.isNone := by
   cases op with
   | new n => exact (sim_new s hi hp n).2
@@ -731,8 +731,8 @@ theorem sim_accept (s : St) (op : Op) (hi : Inv s) (hp : PB s)
   | active i => exact (sim_active s hi hp i).2
   | group ns => exact (sim_group s hi hp ns).2
   | ungroup => exact (sim_ungroup s hi hp).2
-  | defname k sc => exact absurd rfl (hop k sc).1
-  | deldef k sc => exact absurd rfl (hop k sc).2
+  | defname k sc dt => exact absurd rfl (hop k sc dt).1
+  | deldef k sc => exact absurd rfl (hop k sc []).2
   | setcell n v => exact (sim_setcell s hi hp n v).2
   | save => exact (sim_save s).2
   | observe => exact (sim_observe s).2
